@@ -7,7 +7,7 @@ Model of (file references are to `/repo/star_frame/src/unsize/…`):
 * `Val`      — the owned value (`UnsizedType::Owned`) of any shape;
 * `valid`    — what the Rust *types* guarantee about an owned value (record widths, bit-pattern
                validity classes, strict key order of `BTreeSet/BTreeMap`, UTF-8 of `String`);
-  `fits`     — counts fit their length prefix (`L::from_usize(len).unwrap()`, `u32::try_from`);
+  `fits`     — counts fit their length prefix (`L::from_usize(len)`, `u32::try_from`);
   `WF`       — `valid ∧ fits`: the values for which `from_owned` succeeds;
 * `size`     — `FromOwned::byte_size` (and the count `from_owned` returns: same formula in the code);
 * `encode`   — the bytes `FromOwned::from_owned` writes;
@@ -46,6 +46,12 @@ inductive E where
   | oob
   /-- `ErrorCode::DiscriminantMismatch` — `client.rs` `check_discriminant`. -/
   | discMismatch
+  /-- `ErrorCode::ToPrimitiveError` — a list length that does not fit its length type
+  (`list.rs` `from_owned_from_iter`, since the fix "List::from_owned returns an error instead of
+  panicking…"). -/
+  | toPrimitive
+  /-- `ErrorCode::TryFromIntError` — a `u32::try_from` of `UnsizedList` (≥ 2^32 elements / bytes). -/
+  | tryFromInt
   /-- a controlled panic (slice index out of range, `expect`, arithmetic overflow check). -/
   | panic
   /-- an out-of-bounds raw read. Never produced (theorem `reads_in_bounds`). -/
@@ -60,6 +66,8 @@ def E.name : E → String
   | .utf8 => "err:Utf8Error"
   | .oob => "err:PointerOutOfBounds"
   | .discMismatch => "err:DiscriminantMismatch"
+  | .toPrimitive => "err:ToPrimitiveError"
+  | .tryFromInt => "err:TryFromIntError"
   | .panic => "panic"
   | .ub => "UB"
 
@@ -236,7 +244,7 @@ def sizeVariant : List Shape → Nat → Val → Nat
 end
 
 mutual
-/-- Counts fit their prefixes: `L::from_usize(len).unwrap()` (`list.rs` 435), `u32::try_from(len)`,
+/-- Counts fit their prefixes: `L::from_usize(len)` (`list.rs` 428), `u32::try_from(len)`,
 `u32::try_from(unsized_bytes_written)` and the `u32` offsets (`unsized_list.rs` 122, 160–165);
 and the element bytes of a list fit in `usize` (always true of a real `Vec`; `get_ptr` multiplies
 `size_of::<T>() * len` with overflow checks). -/
@@ -307,12 +315,56 @@ def encodeVariant : List Nat → List Shape → Nat → Val → List Nat
   | _, _, _, _ => []
 end
 
+/-- The first element (in write order) that reports an unfit length, as an offset added to the
+sizes of the elements written before it. -/
+def firstUnfit (sz : Val → Nat) (u : Val → Option Nat) : List Val → Option Nat
+  | [] => none
+  | v :: vs => match u v with
+    | some p => some p
+    | none => (firstUnfit sz u vs).map (· + sz v)
+
+mutual
+/-- Where `from_owned` meets the first `List`/`Set`/`Map`/`UnsizedString` whose element count does
+not fit its length type `L`: the offset of that list in the would-be encoding = the number of
+bytes already advanced over when `L::from_usize(len)` fails (`list.rs` `from_owned_from_iter`
+checks BEFORE advancing over the prefix; `UnsizedList` has advanced over its whole header and
+offset table before it writes elements; structs write the sized part first; enums advance over
+the discriminant first; `AccountDiscriminant` over the prefix). `none`: every count fits. -/
+def unfitPos : Shape → Val → Option Nat
+  | .list _ lw, .seq es => if es.length < 256 ^ lw then none else some 0
+  | .set _ lw, .seq es => if es.length < 256 ^ lw then none else some 0
+  | .map _ _ lw, .seq es => if es.length < 256 ^ lw then none else some 0
+  | .str lw, .bytes l => if l.length < 256 ^ lw then none else some 0
+  | .ulist e, .useq vs => (firstUnfit (size e) (unfitPos e) vs).map (· + (12 + vs.length * 4))
+  | .umap kw e, .umap es =>
+      (firstUnfit (size e) (unfitPos e) (es.map (·.2))).map (· + (12 + es.length * Shape.entryW kw))
+  | .struct sized fs, .record _ vs => (unfitFields fs vs).map (· + Fixed.sizeList sized)
+  | .enum _ ps, .variant i p => (unfitVariant ps i p).map (· + 1)
+  | .disc d inner, v => (unfitPos inner v).map (· + d.length)
+  | _, _ => none
+def unfitFields : List Shape → List Val → Option Nat
+  | f :: fs, v :: vs => match unfitPos f v with
+    | some p => some p
+    | none => (unfitFields fs vs).map (· + size f v)
+  | _, _ => none
+def unfitVariant : List Shape → Nat → Val → Option Nat
+  | p :: _, 0, v => unfitPos p v
+  | _ :: ps, i + 1, v => unfitVariant ps i v
+  | [], _, _ => none
+end
+
 /-- `FromOwned::from_owned` into a buffer of `cap` bytes: the bytes written and the returned
-count, `panic` when a count does not fit its prefix type, `AdvanceError` when the buffer is short. -/
+count. A length that does not fit its prefix type is `ToPrimitiveError` — raised when the walk
+reaches that list, i.e. only if the `unfitPos` bytes before it fitted the buffer (else an earlier
+advance already failed with `AdvanceError`); `AdvanceError` when the buffer is short; the `u32`
+overflows of `UnsizedList` (≥ 4 GiB, never exercised) are `TryFromIntError`. -/
 def fromOwned (s : Shape) (v : Val) (cap : Nat) : Except E (List Nat × Nat) :=
-  if !fits s v then .error .panic
-  else if cap < size s v then .error .advancer
-  else .ok (encode s v, size s v)
+  match unfitPos s v with
+  | some p => if p ≤ cap then .error .toPrimitive else .error .advancer
+  | none =>
+    if !fits s v then .error .tryFromInt
+    else if cap < size s v then .error .advancer
+    else .ok (encode s v, size s v)
 
 /-! ## `extent` (= `get_ptr`) -/
 
@@ -671,6 +723,18 @@ def testBufferOwned (s : Shape) (buf : List Nat × Nat) : Except E Val :=
   match decode s (buf.1.take buf.2) with
   | .error e => .error e
   | .ok (v, _) => .ok v
+
+/-- `data_mut()?.set_from_owned(v2)` on the top wrapper of a test buffer (`wrapper.rs`
+`set_data_inner`): the data is resized to `byte_size v2` and `from_owned` writes into it. What is
+left in the slack behind `len` is not observable through the helper and is modelled as zeroes.
+(Stated for values that fit; a `from_owned` failing after the resize is C06's subject.) -/
+def testBufferSet (s : Shape) (_buf : List Nat × Nat) (v2 : Val) : Except E (List Nat × Nat) :=
+  match fromOwned s v2 (size s v2) with
+  | .error e => .error e
+  | .ok (bytes, _) => .ok (bytes ++ List.replicate testSlack 0, size s v2)
+
+/-- `TestByteSet::underlying_data`: the first `len` bytes (`test_helpers.rs` 162–164). -/
+def testBufferData (buf : List Nat × Nat) : List Nat := buf.1.take buf.2
 
 /-! ## `UnsizedInit` -/
 
